@@ -12,7 +12,9 @@ THEOREMS = ["Econf.C08_int32", "Econf.C08_int64", "Econf.C08_uint32", "Econf.C08
 RULE = ("direct oracle on the library (harness/num.c): int32/uint32/float set->get over a slice (quick) or all 2^32 bit patterns "
         "(thorough); int64/uint64/double: every single-bit value and its neighbours, powers of ten +-1 (integers) and 10^k +-1ulp "
         "(doubles), limits, subnormals, infinities, NaNs, and pseudo-random values; set->write->read->get for all seven types incl. "
-        "14 boolean spellings; plus scenarios comparing the text each integer setter stores with the model's printf; "
+        "14 boolean spellings; plus scenarios comparing the text each integer setter stores with the model's printf, and typed setters "
+        "called on keys that already hold a text (empty, absent, another spelling of the same truth value, numbers) in fresh and parsed "
+        "objects, read back directly and through a written file; "
         "non-trivial = a value round trip; distinct values are counted by the harness")
 EXHAUSTIVE = {"quick": False, "thorough": True}
 ASSUMPTIONS = ["glibc printf(%.*g) and strtof/strtod are correctly rounded (assumed; FloatThm shows that 9/17 digits then suffice)"]
@@ -48,10 +50,73 @@ def scenarios(tier, rng):
         s.add("RF", 1, h(b"/o/w"), h(b"="), h(b"#"))
         s.add("ALLGET", 1)
         out.append(s)
+    # typed setters on keys that already hold a text (empty, another spelling of the same truth value, a number, ...):
+    # the value stored last comes back, directly and through a file
+    PRIOR = [b"", None, b"false", b"0", b"No", b"1", b"yes", b"TRUE", b"text", b"42", b"-1", b"0x10"]
+    BOOLS = [(b"true", 1), (b"false", 0), (b"0", 0), (b"1", 1), (b"yes", 1), (b"no", 0), (b"YES", 1), (b"No", 0), (b"False", 0), (b"TRUE", 1)]
+    for i in range(n):
+        s = Scenario("p%d" % i, {"prior": True, "want": []})
+        if rng.random() < 0.5:
+            s.add("NEW", 0, "ini")
+        else:
+            s.file(b"/in.conf", b"k0=\nk1=no\n[S]\nk2=\"\"\nk3=0\nk4\n")
+            s.add("RF", 0, h(b"/in.conf"), h(b"="), h(b"#"))
+        for j in range(6):
+            g = rng.choice([None, b"S"])
+            k = b"k%d" % rng.randrange(6)
+            if rng.random() < 0.7:
+                s.add("SET", 0, "str", h(g), h(k), h(rng.choice(PRIOR)))
+            ty = rng.choice(["bool", "bool", "int", "uint64"])
+            if ty == "bool":
+                sp, val = rng.choice(BOOLS)
+                s.add("SET", 0, "bool", h(g), h(k), h(sp))
+                want = str(val)
+            else:
+                v = rng.choice([0, 1, 7, 2**31 - 1]) if ty == "int" else rng.choice(U64)
+                s.add("SET", 0, ty, h(g), h(k), str(v))
+                want = str(v)
+            s.add("GET", 0, ty, h(g), h(k))
+            s.meta["want"] = [w for w in s.meta["want"] if (w[0], w[1]) != (g, k)] + [(g, k, ty, want)]
+        s.mkdir(b"/o")
+        s.add("W", 0, h(b"/o"), h(b"w"))
+        s.add("RF", 1, h(b"/o/w"), h(b"="), h(b"#"))
+        for g, k, ty, want in s.meta["want"]:
+            s.add("GET", 1, ty, h(g), h(k))
+        out.append(s)
     return out
 
 
+def oracle_prior(s, lines):
+    it = iter(lines)
+    last = {}
+    for cmd in s.lines:
+        t = cmd.split()
+        if t[0] in ("NEW", "RF", "W", "SET", "GET"):
+            l = next(it, "")
+            if t[0] == "W" and l == "w E0":
+                next(it, "")
+            if t[0] == "SET" and t[2] != "str":
+                if l != "set E0":
+                    return "typed setter refused: %r -> %r" % (cmd, l)
+                last[(t[3], t[4])] = cmd
+            if t[0] == "GET":
+                want = next(w for w in reversed(s.meta["want"]) if (h(w[0]), h(w[1])) == (t[3], t[4]))[3] if t[1] == "1" else None
+                if t[1] == "0":
+                    # directly after the typed set
+                    setcmd = last.get((t[3], t[4]))
+                    st = setcmd.split()
+                    if st[2] == "bool":
+                        want = {"true": "1", "yes": "1", "1": "1"}.get(bytes.fromhex(st[5][1:]).decode().lower(), "0")
+                    else:
+                        want = st[5]
+                if l != "get E0 " + want:
+                    return "%s after %s: got %r, stored value %s" % (cmd, "write and read back" if t[1] == "1" else "the typed set", l, want)
+    return None
+
+
 def oracle(s, lines):
+    if s.meta.get("prior"):
+        return oracle_prior(s, lines)
     if not s.meta.get("num"):
         return None
     # every SET v / GET str / GET ty triple: text is the decimal numeral, value comes back
@@ -68,11 +133,11 @@ def oracle(s, lines):
 
 
 def nontrivial(s, lines):
-    return tuple(s.lines) if s.meta.get("num") else None
+    return tuple(s.lines) if (s.meta.get("num") or s.meta.get("prior")) else None
 
 
 def histogram(s, lines):
-    return ["int_text_scenario"] if s.meta.get("num") else ["corpus"]
+    return ["int_text_scenario"] if s.meta.get("num") else ["typed_set_over_prior_text"] if s.meta.get("prior") else ["corpus"]
 
 
 def direct_checks(res, harness, tier, rng):
